@@ -48,12 +48,12 @@ static int prep_rich(const char *path)
     aid = HLcreate(fid, 1002, 1, 64, 3); wl_fill(b, 600, 4); Hwrite(aid, 200, b); Hendaccess(aid);
     Vstart(fid);
     vs = VSattach(fid, -1, "w"); VSsetname(vs, "table"); VSsetclass(vs, "cls"); VSfdefine(vs, "a", DFNT_INT32, 1); VSfdefine(vs, "b", DFNT_FLOAT32, 2);
-    VSsetfields(vs, "a,b"); wl_fill(b, 600, 5); VSwrite(vs, b, 20, FULL_INTERLACE); int32 vsref = VSQueryref(vs); VSdetach(vs);
-    vg = Vattach(fid, -1, "w"); Vsetname(vg, "group"); Vsetclass(vg, "gcls"); Vaddtagref(vg, DFTAG_VH, vsref); Vaddtagref(vg, 1000, 1); Vdetach(vg);
+    VSsetfields(vs, "a,b"); wl_fill(b, 600, 5); VSwrite(vs, b, 20, FULL_INTERLACE); int32 vsref = VSQueryref(vs); { int32 av = 77; VSsetattr(vs, _HDF_VDATA, "vsatt", DFNT_INT32, 1, &av); } VSdetach(vs);
+    vg = Vattach(fid, -1, "w"); Vsetname(vg, "group"); Vsetclass(vg, "gcls"); Vaddtagref(vg, DFTAG_VH, vsref); Vaddtagref(vg, 1000, 1); { int32 av = 78; Vsetattr(vg, "vgatt", DFNT_INT32, 1, &av); } Vdetach(vg);
     Vend(fid);
     an = ANstart(fid); ann = ANcreate(an, 1000, 1, AN_DATA_LABEL); ANwriteann(ann, "label-one", 9); ANendaccess(ann);
     ann = ANcreatef(an, AN_FILE_DESC); ANwriteann(ann, "file description", 16); ANendaccess(ann); ANend(an);
-    gr = GRstart(fid); { int32 dims[2] = {5, 4}, st[2] = {0, 0}; ri = GRcreate(gr, "img", 3, DFNT_UINT8, MFGR_INTERLACE_PIXEL, dims); wl_fill(b, 600, 6); GRwriteimage(ri, st, NULL, dims, b); GRendaccess(ri); } GRend(gr);
+    gr = GRstart(fid); { int32 dims[2] = {5, 4}, st[2] = {0, 0}; ri = GRcreate(gr, "img", 3, DFNT_UINT8, MFGR_INTERLACE_PIXEL, dims); wl_fill(b, 600, 6); GRwriteimage(ri, st, NULL, dims, b); int32 av = 79; GRsetattr(ri, "iatt", DFNT_INT32, 1, &av); av = 80; GRsetattr(gr, "gatt", DFNT_INT32, 1, &av); GRendaccess(ri); } GRend(gr);
     if (Hclose(fid) == FAIL) return -1;
     sd = SDstart(path, DFACC_RDWR); if (sd == FAIL) return -1;
     { int32 dims[2] = {4, 6}, st[2] = {0, 0}; int16 v[24]; for (int i = 0; i < 24; i++) v[i] = (int16)(i * 3 - 7);
@@ -174,6 +174,44 @@ static int run_sd_new(const char *path)         /* SD: new dataset + attributes 
     CK(SDend(sd));
 done: return wl_nfail;
 }
+static int run_sd_partial(const char *path)     /* SD: a new fixed-size dataset whose FIRST write is a partial slab in the middle (fill values are written in
+                                                   front of and behind it), then a second partial write; a second dataset with a user fill value, last rows only */
+{
+    int32 sd, sds; wl_nfail = 0;
+    CKID(sd, SDstart(path, DFACC_RDWR));
+    { int32 dims[2] = {40, 30}, st[2] = {17, 0}, ct[2] = {3, 30}, st2[2] = {30, 4}, ct2[2] = {2, 5}; int16 v[90]; for (int i = 0; i < 90; i++) v[i] = (int16)(1000 + i);
+      ID(sds, SDcreate(sd, "partial", DFNT_INT16, 2, dims)); if (sds == FAIL) wl_nfail++;
+      else { CK(SDwritedata(sds, st, NULL, ct, v)); CK(SDwritedata(sds, st2, NULL, ct2, v)); CK(SDendaccess(sds)); }
+      int32 d1[1] = {3000}, s1[1] = {2990}, c1[1] = {10}; float32 fv = -1.5f, w[10]; for (int i = 0; i < 10; i++) w[i] = (float32)i;
+      ID(sds, SDcreate(sd, "tail", DFNT_FLOAT32, 1, d1)); if (sds == FAIL) wl_nfail++;
+      else { CK(SDsetfillvalue(sds, &fv)); CK(SDwritedata(sds, s1, NULL, c1, w)); CK(SDendaccess(sds)); } }
+    CK(SDend(sd));
+done: return wl_nfail;
+}
+static int run_sd_meta(const char *path)        /* SD: metadata only - a new dataset WITHOUT data, a new file attribute: the only thing the session stores is the
+                                                   rewritten metadata at SDend, while the old metadata is (often) the last object in the file */
+{
+    int32 sd, sds; wl_nfail = 0;
+    CKID(sd, SDstart(path, DFACC_RDWR));
+    { int32 dims[2] = {7, 3};
+      ID(sds, SDcreate(sd, "empty", DFNT_INT32, 2, dims)); if (sds == FAIL) wl_nfail++; else { CK(SDsetattr(sds, "note", DFNT_CHAR8, 4, "none")); CK(SDendaccess(sds)); } }
+    CK(SDsetattr(sd, "history", DFNT_CHAR8, 7, "session"));
+    CK(SDend(sd));
+done: return wl_nfail;
+}
+static int run_gr_meta(const char *path)        /* GR: metadata only - a new file attribute and an image without data */
+{
+    int32 fid, gr, ri; wl_nfail = 0;
+    CKID(fid, Hopen(path, DFACC_RDWR, 0));
+    ID(gr, GRstart(fid)); if (gr == FAIL) wl_nfail++;
+    else {
+        int32 v = 42; CK(GRsetattr(gr, "gattr", DFNT_INT32, 1, &v));
+        int32 dims[2] = {3, 2}; ID(ri, GRcreate(gr, "blank", 1, DFNT_UINT8, MFGR_INTERLACE_PIXEL, dims)); if (ri == FAIL) wl_nfail++; else CK(GRendaccess(ri));
+        CK(GRend(gr));
+    }
+    CK(Hclose(fid));
+done: return wl_nfail;
+}
 static int run_sd_chunk(const char *path)       /* SD: chunked + deflate dataset, unlimited dataset */
 {
     int32 sd, sds; wl_nfail = 0;
@@ -248,6 +286,9 @@ static const workload_t WORKLOADS[] = {
     {"gr_new",    prep_rich, run_gr_new,    1, 0, 0},
     {"sd_new",    prep_rich, run_sd_new,    1, 0, 0},
     {"sd_chunk",  prep_rich, run_sd_chunk,  1, 0, 0},
+    {"sd_partial", prep_rich, run_sd_partial, 1, 0, 0},
+    {"sd_meta",   prep_rich, run_sd_meta,   1, 0, 0},
+    {"gr_meta",   prep_rich, run_gr_meta,   1, 0, 0},
     {"h_append",  prep_h,    run_h_append,  0, 0, 0},
     {"vs_append", prep_rich, run_vs_append, 0, 0, 0},
     {"sd_modify", prep_rich, run_sd_modify, 0, 0, 0},
